@@ -19,6 +19,8 @@ CLAIMED = {
          "one task, 2 occurrences (any second of two consecutive days), 2-3 loop iterations quick (3 occurrences, 4 iterations thorough); libev/spawn stand-ins with libev 4's reschedule-then-callback order; replace/cancel histories and several tasks are C11/C12's harnesses.", "symbolic wake-up schedules against epoch-second ground truth", "6 C04"),
  'C10': ("_ical_push/_ical_pull/esccpy executed on N fully symbolic bytes (all 256 values), once as one chunk and once split at each position, with the callers' pull protocol (pull until need-more-data, the extra pull round at end of input, the last pull); every completed line handed to the component parser is recorded and must be identical; bounds/pointer checks and a canary on the line stash; unwinding assertions bound the chopping loops.",
          "N <= 4 bytes quick (5-6 thorough), two chunks, line stash reduced to 16 bytes (hook; 3 bytes for the over-long-line safety obligations); the component state machine _ical_proc is observed through hook ECHSE_VERIF_PROC, it is a function of (state, line); known finding C10-1 (escape split) excluded and re-confirmed each run.", "chunked-vs-whole differential on symbolic bytes", "6 C10"),
+ 'C06': ("Write side of the checkpoint: chkpnt()/chkpnt1() with the real buffered writer (src/fdprnt.h) and the real serialiser (src/evical.c) against a file-system stand-in in which any one of the first 12 (thorough: 30) system calls fails outright or short; the invariant 'the live queue file is the old complete file or a new complete file' is asserted at rename time and the dot-file/unlink/rename protocol after the run, which covers a crash at every system-call boundary (rename atomic).",
+         "queue configuration (0-2 tasks, owners, dirty user) and the length of every formatted field are constants of the obligation (7 configurations; field length 8, thorough also 40) because a symbolic length makes the writer's buffer index a 130-deep conditional chain cbmc cannot simplify; output buffer reduced to 128 bytes (hook); the reload half (a daemon started afterwards schedules exactly the checkpointed tasks) needs the text parser on the produced bytes and is outside; known finding C06-1 (write errors unnoticed) excluded by assumption and re-confirmed each run.", "single symbolic fault over the system-call trace of a checkpoint", "6 C06"),
  'C09': ("The fillers called as refill() calls them with bounds/pointer checks on the real cache buffer (cache 4 via hook): overshoot shapes, the maximal BYHOUR/BYSECOND lists, and empty recurrence sets that must end the stream within the unwinding bound (a failed unwinding assertion is replayed natively under a time limit).",
          "cache 4 instead of 64; termination obligations start near the end of the supported range; sparse-shape memory safety rides on C01's obligations.", "bounds checks + unwinding assertions as termination obligations", "6 C09"),
  'C11': ("_inject_task1/_eject_task1/get_task with the real task table (put_task_slot/get_task_slot) and ownership predicates under symbolic histories of add-or-replace / cancel operations by two peer uids over symbolic 64-bit oids, as root daemon or per-user daemon; after every operation the look-up of every oid, the stored task, its owner and its run-as uid are compared with a reference map kept by the harness; table growth on colliding low bits is its own obligation.",
@@ -89,9 +91,7 @@ def main():
     print('MANIFEST: %d checks, %d not_applicable' % (len(checks), len(na)))
 
 
-NA = {
- 'C06': "not decided within reach: the write side (chkpnt/chkpnt1 + the real buffered writer of src/fdprnt.h + the serialiser of src/evical.c, file system stand-in with one symbolic fault) is encoded in harness/C06, but symbolic execution does not finish in 1500 s (cbmc spends its time simplifying the nested buffer-index expressions of ~130 chained fdprintf/fdwrite calls, each with a conditional flush), with the output buffer reduced to 128 bytes, a count-only vsnprintf and a content-free memcpy; the reload side would in addition need the text parser run on the produced bytes. The harness, its measured numbers and the defect found while reading for it (C06-1, write errors unnoticed) are kept in DESIGN.md section 7; no verdict is claimed.",
-}
+NA = {}
 
 if __name__ == '__main__':
     main()
